@@ -346,7 +346,83 @@ def run_rep(inp):
     return {"bad": bad}
 
 
+# ------------------------------------------------------------------ oracle: the action is the geometric one (incidence is preserved)
+def gen_inc(rng, n):
+    for c in range(n):
+        yield {"op": "incidence", "kind": ["hyperplane", "dualpoint", "subspace", "geodesic", "convexpolygon", "convexpolygon"][c % 6],
+               "shape": rng.choice(O.SHAPES[:6]), "n": rng.choice([2, 3]), "seed": rng.randrange(10 ** 9)}
+
+
+def run_inc(inp):
+    g = O.G(inp["seed"])
+    kind, n, shape = inp["kind"], inp["n"], tuple(inp["shape"])
+    bad = []
+    J = np.diag([-1.0] + [1.0] * n)
+    if kind == "convexpolygon":
+        # the one class with dual data: a functional f (the chart is the complement of the hyperplane f.w = 0); any invertible A
+        verts = np.concatenate([np.ones((5, 1)), O.klein(g, (5,), n)], axis=-1)
+        f = np.concatenate([[1.0], g.uniform(-0.3, 0.3, n)])
+        X = P.ConvexPolygon(verts, dual_data=f)
+        A, B = O.invertibles(g, [], n), O.invertibles(g, [], n)
+        # points of the dual hyperplane: a basis of the kernel of f
+        W = np.concatenate([-f[1:, None] / f[0], np.identity(n)], axis=1)
+        Y = A @ X
+        if type(Y) is not type(X) or Y.dual_data is None:
+            bad.append({"what": "dual:type"})
+        else:
+            img = W @ np.array(A.matrix)
+            if np.abs(img @ np.array(Y.dual_data)).max() > 1e-7 * (1 + np.abs(img).max() * np.abs(Y.dual_data).max()):
+                bad.append({"what": "dual_incidence", "expected": "the image functional vanishes on the images of the points of the dual hyperplane"})
+            sg = np.sign(np.array(Y.proj_data) @ np.array(Y.dual_data))
+            if not (np.all(sg > 0) or np.all(sg < 0)):
+                bad.append({"what": "dual_chart", "expected": "all image vertices on one side of the image hyperplane"})
+            L, R = (A @ B) @ X, A @ (B @ X)
+            if not (O.rows_proj_eq(L.dual_data, R.dual_data, 1e-7) and O.rows_proj_eq(L.proj_data, R.proj_data, 1e-7) and O.rows_proj_eq(L.aux_data, R.aux_data, 1e-7)):
+                bad.append({"what": "dual_assoc"})
+            Z = A.inv() @ (A @ X)
+            if not (O.rows_proj_eq(Z.dual_data, f, 1e-7) and O.rows_proj_eq(Z.proj_data, verts, 1e-7)):
+                bad.append({"what": "dual_inverse"})
+        return {"bad": bad}
+    A = O.isometries(g, [] if g.random() < 0.5 else shape, n)
+    if kind in ("hyperplane", "dualpoint"):
+        X = O.mk("hyperplane", g, shape, n)
+        nrm = np.array(X.spacelike_vector)
+        pts = np.array(X.ideal_basis)                  # points of the hyperplane
+        if kind == "dualpoint":
+            X = H.DualPoint(nrm.copy())
+        Y = A @ X
+        # images of the points, unit by unit
+        Am = np.broadcast_to(np.array(A.matrix), shape + (n + 1, n + 1))
+        img = np.einsum("...kj,...ji->...ki", pts, Am)
+        nrm2 = np.array(Y.spacelike_vector) if kind == "hyperplane" else np.array(Y.proj_data)
+        inc = np.einsum("...ki,ij,...j->...k", img, J, nrm2)
+        if np.abs(inc).max() > 1e-7:
+            bad.append({"what": "normal_incidence", "expected": "the image normal is Minkowski-orthogonal to the images of the points of the hyperplane"})
+        if kind == "hyperplane" and np.abs(np.einsum("...ki,ij,...j->...k", np.array(Y.ideal_basis), J, nrm2)).max() > 1e-7:
+            bad.append({"what": "image_not_a_hyperplane"})
+    else:
+        # the image of the span is the span of the images: a point on the line through the two rows stays on the image's line
+        X = O.mk(kind, g, shape, n)
+        d = np.array(X.proj_data)
+        lam = g.uniform(0.2, 0.8, shape + (1,))
+        w = lam * d[..., 0, :] + (1 - lam) * d[..., 1, :]
+        Am = np.broadcast_to(np.array(A.matrix), shape + (n + 1, n + 1))
+        wi = np.einsum("...j,...ji->...i", w, Am)
+        Y = np.array((A @ X).proj_data)
+        for idx in np.ndindex(*shape):
+            M = np.vstack([Y[idx][:2], wi[idx]])
+            if np.linalg.matrix_rank(M, tol=1e-8) > 2:
+                bad.append({"what": "span_incidence", "idx": list(idx)})
+                break
+    return {"bad": bad}
+
+
 CLAUSES = [
+    Clause("incidence", "oracle", gen_inc, run_inc, O.judge_bad, site="projective.Transformation.apply (dual / normal data)",
+           budget={"quick": 180, "thorough": 3000},
+           what="the action is the geometric one: A@Hyperplane / A@DualPoint is Minkowski-orthogonal to the images of the points of the original hyperplane, A@Subspace / A@Geodesic "
+                "contains the images of points of the original, and for the class with dual data (ConvexPolygon with a supplied functional, any invertible A) the image functional "
+                "vanishes on the images of the dual hyperplane, keeps all vertices on one side, and satisfies the action laws"),
     Clause("apply_corr", "corr", gen_apply, run_apply, judge_apply, lean=lean_apply, site="projective.Transformation.apply",
            budget={"quick": 396, "thorough": 5000},
            what="T.apply(X, mode) for each of the 11 kinds (objects built by the library, their primary and derived data sent exactly), arbitrary dyadic "
